@@ -119,6 +119,7 @@ type glCtx struct {
 	known      map[string]*glTarget // translated functions of the same group/package by name
 	usesExt    map[string]bool
 	effectDone map[*ast.AssignStmt]bool
+	deferred   []string // trace entries of deferred effect calls, in the order the defers were executed
 }
 
 func (c *glCtx) fail(n ast.Node, f string, a ...interface{}) {
@@ -686,6 +687,10 @@ func (c *glCtx) assignedOuter(list []ast.Stmt) []string {
 			}
 		case *ast.IncDecStmt:
 			note(x.X, declared)
+		case *ast.SendStmt:
+			if _, ok := c.t.stores[c.p.str(x.Chan)]; ok {
+				seen["trace_"] = true
+			}
 		case *ast.DeclStmt:
 			if gd, ok := x.Decl.(*ast.GenDecl); ok {
 				for _, sp := range gd.Specs {
@@ -877,7 +882,16 @@ func (c *glCtx) stmts(list []ast.Stmt, d int) string {
 			c.fail(x, "bare return in a function with (named) results")
 		}
 		if c.t.traceLean != "" {
-			val = "(" + val + ", trace_)"
+			tr := "trace_"
+			if len(c.deferred) > 0 {
+				// deferred effect calls run after the results are evaluated, last deferred first
+				var rev []string
+				for i := len(c.deferred) - 1; i >= 0; i-- {
+					rev = append(rev, c.deferred[i])
+				}
+				tr = "(trace_ ++ [" + strings.Join(rev, ", ") + "])"
+			}
+			val = "(" + val + ", " + tr + ")"
 		}
 		if c.inLoop {
 			return "KM.Go.Ctl.ret " + val
@@ -895,11 +909,11 @@ func (c *glCtx) stmts(list []ast.Stmt, d int) string {
 		}
 		c.fail(x, "%s", x.Tok)
 	case *ast.ExprStmt:
-		if call, ok := x.X.(*ast.CallExpr); ok && c.ignorable(call) {
-			return c.stmts(rest, d)
-		}
 		if call, ex, ok := c.effectOf(x.X); ok {
 			return c.traceUpdate(call, ex, d) + c.stmts(rest, d)
+		}
+		if call, ok := x.X.(*ast.CallExpr); ok && c.ignorable(call) {
+			return c.stmts(rest, d)
 		}
 		c.fail(x, "expression statement %s", c.p.str(x))
 	case *ast.IncDecStmt:
@@ -964,6 +978,20 @@ func (c *glCtx) stmts(list []ast.Stmt, d int) string {
 		return c.ifStmt(x, rest, d)
 	case *ast.SwitchStmt:
 		return c.stmts(append([]ast.Stmt{c.switchToIf(x)}, rest...), d)
+	case *ast.DeferStmt:
+		// only `defer <effect call>` at the top level of the function (not in a loop or branch): the effect is
+		// appended to the trace at every return that follows
+		if call, ex, ok := c.effectOf(x.Call); ok && !c.inLoop && !c.joinActive && d == 1 {
+			c.deferred = append(c.deferred, ex.effect+c.externArgs(call, ex))
+			return c.stmts(rest, d)
+		}
+		c.fail(x, "defer")
+	case *ast.SendStmt:
+		if ctor, ok := c.t.stores[c.p.str(x.Chan)]; ok {
+			val, _ := c.expr(x.Value)
+			return "let trace_ := trace_ ++ [" + ctor + " " + val + "];" + ind(d) + c.stmts(rest, d)
+		}
+		c.fail(x, "channel send")
 	case *ast.TypeSwitchStmt:
 		return c.typeSwitch(x, rest, d)
 	case *ast.RangeStmt:
@@ -977,14 +1005,16 @@ func (c *glCtx) stmts(list []ast.Stmt, d int) string {
 
 func (c *glCtx) assign(x *ast.AssignStmt, rest []ast.Stmt, d int) string {
 	if len(x.Rhs) == 1 {
-		if call, ex, ok := c.effectOf(x.Rhs[0]); ok && !c.effectDone[x] {
-			if c.effectDone == nil {
-				c.effectDone = map[*ast.AssignStmt]bool{}
-			}
-			c.effectDone[x] = true
-			return c.traceUpdate(call, ex, d) + c.assign(x, rest, d)
+		if call, ex, ok := c.effectOf(x.Rhs[0]); ok {
+			// the effect is recorded first, then the call's (parameterised) value is bound; a statement may be
+			// translated several times (once per branch that falls through to it), each time with its effect
+			return c.traceUpdate(call, ex, d) + c.assign2(x, rest, d)
 		}
 	}
+	return c.assign2(x, rest, d)
+}
+
+func (c *glCtx) assign2(x *ast.AssignStmt, rest []ast.Stmt, d int) string {
 	// several results of one call
 	if len(x.Lhs) > 1 && len(x.Rhs) == 1 {
 		call, ok := x.Rhs[0].(*ast.CallExpr)
